@@ -21,6 +21,17 @@ func main() {
 		os.Exit(2)
 	}
 	id := os.Args[1]
+	if id == "selftest-determinism" {
+		ids := strings.Split(os.Args[2], ",")
+		sc, rep := 3, 30
+		if len(os.Args) > 3 {
+			sc, _ = strconv.Atoi(os.Args[3])
+		}
+		if len(os.Args) > 4 {
+			rep, _ = strconv.Atoi(os.Args[4])
+		}
+		os.Exit(drv.SelfTestDeterminism(ids, sc, rep, 7))
+	}
 	if id == "shell" {
 		shell(os.Args[2])
 		return
